@@ -322,8 +322,8 @@ def gen_parameters(rng, version, nn):
                 d.setdefault("type", "string")
             else:
                 d = {"name": name, "in": loc, "schema": sch}
-            if required or rng.random() < 0.3:
-                d["required"] = required
+            if (required and not (loc == "path" and rng.random() < 0.3)) or (not required and rng.random() < 0.3):
+                d["required"] = required  # (a path parameter without `required: true` is still always generated)
             out.append((loc, d))
     return path_vars, out
 
